@@ -70,3 +70,6 @@ OBJ_A = Marker('A')
 OBJ_B = Marker('B')
 NUMBER = 12345
 TEXT = 'plain text object'
+# objects that cannot be copied: a lock, (and the modules themselves)
+import threading    # noqa: E402
+LOCK = threading.Lock()
